@@ -3,8 +3,8 @@ import MsqProofs.Lemmas.ParseAccountDdl6
 # C08, general accounting for the DDL classes — part 7: one statement of ANY class, the statement loop
 
 `runsOK d f g ts` (Bool): the statement loop is followed only to DELIMIT the statements (`run ts r` = the tokens `pStatement`
-consumed); for every statement whose result is a CREATE TABLE ( … ) or an ALTER TABLE, its token run satisfies `ddlRunOK` — a
-condition on tokens.  Nothing is required of the other classes.
+consumed); for every statement whose result is a CREATE TABLE ( … ) its token run satisfies `ddlRunOK`, for an ALTER TABLE the runs of
+its operations satisfy `NoRep` (`alterOK`) — conditions on tokens.  Nothing is required of the other classes.
 -/
 set_option linter.unusedVariables false
 set_option linter.unusedSectionVars false
@@ -30,10 +30,10 @@ theorem notNew_pUpdate {d f w ts s r} (h : pUpdate d f w ts = .ok (s, r)) : isNe
 
 /-- one statement of any class -/
 theorem pStatement_acc (T : List String) (d : Gen.D) (f : Nat) (ts : List Tok) (s : Stmt) (r : List Tok) (h : pStatement d f ts = .ok (s, r)) :
-    ∃ used, ts = used ++ r ∧ ((isDdlRes s = true → ddlRunOK used = true) → FullDStmt s = true → Sub (tStmt s) T → AccAllD T used) := by
+    ∃ used, ts = used ++ r ∧ (stmtOK d f ts s used = true → FullDStmt s = true → Sub (tStmt s) T → AccAllD T used) := by
   have h0 := h
   have old : isNewRes s = false →
-      ∃ used, ts = used ++ r ∧ ((isDdlRes s = true → ddlRunOK used = true) → FullDStmt s = true → Sub (tStmt s) T → AccAllD T used) := fun hn => by
+      ∃ used, ts = used ++ r ∧ (stmtOK d f ts s used = true → FullDStmt s = true → Sub (tStmt s) T → AccAllD T used) := fun hn => by
     obtain ⟨u1, e, ha⟩ := ar_used (accS_pStatement T d f ts) h0 (pStatement_consumes d f _ _ _ h0)
     exact ⟨u1, e, fun _ hf hs => accAllD_of_acc (ha (by rw [← fullD_old s hn]; exact hf) hs)⟩
   unfold pStatement at h
@@ -74,17 +74,14 @@ theorem pStatement_acc (T : List String) (d : Gen.D) (f : Nat) (ts : List Tok) (
       · exact old (notNew_pUpdate h)
       · simp at h
 
-/-- the tokens consumed between the cursor `ts` and its rest `r` -/
-def run (ts r : List Tok) : List Tok := ts.take (ts.length - r.length)
-theorem run_append (u r : List Tok) : run (u ++ r) r = u := by simp [run]
-/-- every CREATE TABLE ( … ) / ALTER TABLE statement of the token list, as the parser delimits the statements, satisfies `ddlRunOK` -/
+/-- every CREATE TABLE ( … ) / ALTER TABLE statement of the token list, as the parser delimits the statements, satisfies `stmtOK` -/
 def runsOK (d : Gen.D) (f : Nat) : Nat → List Tok → Bool
   | 0, _ => true
   | g+1, ts =>
     if ts.isEmpty then true else
     match pStatement d f ts with
     | .error _ => true
-    | .ok (s, r) => (!isDdlRes s || ddlRunOK (run ts r)) && runsOK d f g (moveStr r ";").2
+    | .ok (s, r) => stmtOK d f ts s (run ts r) && runsOK d f g (moveStr r ";").2
 
 theorem statementsLoop_acc (T : List String) (d : Gen.D) (f : Nat) : ∀ g acc ts v, statementsLoop d f g acc ts = .ok v →
     runsOK d f g ts = true → FullDStmts v = true → FullDStmts acc = true ∧ (Sub (tStmts v) T → AccAllD T ts ∧ Sub (tStmts acc) T) := by
@@ -105,7 +102,7 @@ theorem statementsLoop_acc (T : List String) (d : Gen.D) (f : Nat) : ∀ g acc t
       · rename_i s r1 hp
         unfold runsOK at hr
         rw [if_neg hcnd] at hr
-        simp only [hp, Bool.and_eq_true, Bool.or_eq_true, Bool.not_eq_true'] at hr
+        simp only [hp, Bool.and_eq_true] at hr
         obtain ⟨u1, e1, k1⟩ := pStatement_acc T d f ts s r1 hp
         obtain ⟨uS, eS, kS⟩ := moveStr_kw r1 ";" kSEMI
         obtain ⟨f1, k2⟩ := ih _ _ _ h hr.2 hf
@@ -116,10 +113,7 @@ theorem statementsLoop_acc (T : List String) (d : Gen.D) (f : Nat) : ∀ g acc t
         rw [tStmts_append, tStmts_one, sub_append] at s2
         refine ⟨?_, s2.1⟩
         have hrun : run ts r1 = u1 := by rw [e1]; exact run_append u1 r1
-        have a1 := k1 (fun hd => by
-          rcases hr.1 with h1 | h1
-          · rw [hd] at h1; simp at h1
-          · rw [hrun] at h1; exact h1) f1.2 s2.2
+        have a1 := k1 (by rw [← hrun]; exact hr.1) f1.2 s2.2
         have E : ts = u1 ++ (uS ++ (moveStr r1 ";").2) := e1.trans (congrArg (u1 ++ ·) eS)
         rw [E]
         exact accAllD_append a1 (accAllD_append (accAllD_of_acc (accAll_kws kS)) a2)
